@@ -43,7 +43,7 @@ F_EXPL = 'C06-explicit-show-needs-stdout'
 STALE = 'stale results of an earlier run\n'
 
 HEADER = '''import sys, contextlib, threading
-_LOCK = threading.Lock()
+_LOCK = threading.RLock()      # re-entrant: with-blocks nest, also across calls
 K = int(sys.argv[1]); KIND = sys.argv[2]; DECO = sys.argv[3]; OUT = sys.argv[4]
 SHOWAT = int(sys.argv[5]) if len(sys.argv) > 5 else 0     # explicit mode: an intermediate profile.show() at that statement
 WAITAT = int(sys.argv[6]) if len(sys.argv) > 6 else 0     # kernprof -i: wait at that statement until the timer has dumped
